@@ -32,7 +32,7 @@ SPEC = {
              'and wired at t; (iii) sequences of System creations with assets of every class created before the first '
              'run, between runs and inside events, with 1-3 simulate calls; lifecycle monitor on all of them; a case '
              'is one scenario; non-trivial = a late-created asset subsequently handled a part / order / transition / '
-             'sample'),
+             'sample; also: System creations inside simulate_multiple_times(.., 0), late group-path twins against block_input twins, nested spawners, refused late constructions, hundreds of assets'),
     'floors': {'quick': {'late_created_assets': 1500, 'subline_twins_equal': 100, 'branch_twins_equal': 100,
                          'find_assets_queries': 2000, 'superseded_system_rejected': 100,
                          'late_assets_that_worked': 500, 'initialisations_checked': 5000},
